@@ -913,5 +913,5 @@ func main() {
 			"the node answers a request according to the paging state it RECEIVES and logs statement/id, values, consistency, flags, page size, paging state (decoded by the independent reference codec)",
 			"stream-allocator atomics are not scheduling points (C08); map iteration order fixed; -race pass separate",
 			"page size does not constrain the script (a node may return fewer rows than the page size; scripts have <= 3 rows per page and page size >= 3)"},
-		defs, 60*time.Second, 30*time.Minute, nil) // thorough: 10 scenarios share 30 min = 180 s each; the largest need 90-180 s on a loaded machine, the whole tier ~8-10 min
+		defs, 60*time.Second, 40*time.Minute, nil) // thorough: the budget is a cap shared equally: 10 scenarios x 240 s; the largest need 90-230 s on a loaded machine, the whole tier 8-13 min
 }
